@@ -603,6 +603,8 @@ class Findings(object):
 
 
 def desc(it):
+    if it.bp[0] == "T" and it.bp[1] == "Constant":
+        return "Constant(%r) printed %r [%s]" % (it.bp[2][1], it.s, it.src)
     return "%s %r [%s]" % (top_cls(it.bp), it.s, it.src)
 
 
